@@ -553,14 +553,21 @@ func bceSideCondition(u *Universe, name string) string {
 		if fd == nil {
 			return "calcCursorOffset not found"
 		}
-		pe := newPE(u, p.TypesInfo, fd)
-		a, b := findLocal(p.TypesInfo, fd, "widthBorders"), findLocal(p.TypesInfo, fd, "widths")
-		if a == nil || b == nil {
+		// the two parallel tables are the (large) integer list literals of the function, whatever they are called
+		var lens []int
+		ast.Inspect(fd, func(n ast.Node) bool {
+			if cl, ok := n.(*ast.CompositeLit); ok {
+				if _, isSlice := p.TypesInfo.TypeOf(cl).Underlying().(*types.Slice); isSlice && len(cl.Elts) > 4 {
+					lens = append(lens, len(cl.Elts))
+				}
+			}
+			return true
+		})
+		if len(lens) != 2 {
 			return "width tables not found"
 		}
-		la, lb := pe.findListLiteral(a), pe.findListLiteral(b)
-		if la == nil || lb == nil || len(la.Elts) != len(lb.Elts) {
-			return "widthBorders and widths have different lengths"
+		if lens[0] != lens[1] {
+			return "the range-border table and the width table have different lengths"
 		}
 		return ""
 	case "binary-search-midpoint-updates":
